@@ -446,7 +446,98 @@ def sign_rule(chk, db):
         chk.analysis_broken("SIGN: no formatting kernel that emits '-' found")
 
 
-META_EXTRA = "NEG (no negation of a possibly-minimum signed value); SIGN ('-' on every path that may format a negative value); CASTSIGN (no cast of the caller's value to a fixed signed type); OVFCHK (accumulation only after an unconditional overflow test); OVFCONST (exact thresholds limit / base, |limit % base|); PARAM."
+def parse_rule(chk, db):
+    """PARSE: the parsing front ends hand the work to `to_integer<X, options>` with (a) X the type they deliver -- their return
+    type, or the type of the reference they store the value through -- because overflow is detected at X's limits (parsing in a
+    wider type and narrowing the result moves the limits), and (b) the white-space option the standard gives them:
+    from_chars does not skip leading white space ([charconv.from.chars]); strto*, sto*, ato* do ([c.strings], strtol)."""
+    import re
+    n = 0
+    for f in db.funcs:
+        if f.get("body") is None or not any(f["file"].startswith(p) for p in ("_charconv/", "_cstdlib/", "_string/sto")):
+            continue
+        calls = [x for x in astx.all_exprs(f, into_lambdas=True) if x.get("k") == "call" and astx.callee(x)[0] == "to_integer"]
+        if not calls:
+            continue
+        aliases = {}
+        consts = {}
+        for st in astx.walk_stmts(f["body"]):
+            if st.get("k") == "decl":
+                for v in st["vars"]:
+                    if v.get("other") == "TypeAlias":
+                        aliases[v["n"]] = v.get("ty") or ""
+                    elif "other" not in v and v.get("init") is not None:
+                        consts[v["n"]] = v["init"]
+        def norm(t):
+            return re.sub(r"\s+", " ", (t or "").replace("const ", "").replace("&", "").replace("etl::", "")).strip()
+        delivered = set()
+        if norm(f.get("ret")) not in ("", "auto", "void") and "result" not in norm(f.get("ret")):
+            delivered.add(norm(f.get("ret")))
+        for p0 in f["params"]:
+            if p0["ty"].strip().endswith("&") and "const" not in p0["ty"]:
+                delivered.add(norm(p0["ty"]))
+        for c in calls:
+            n += 1
+            construct = "%s :: `%s`" % (astx.sig(f), astx.show(c, 50))
+            chk.instance("PARSE")
+            targs = [t.strip() for t in _split_targs(c["f"].get("targs") or "")]
+            bad = None
+            x = norm(targs[0]) if targs else ""
+            if not x:
+                chk.obligation("PARSE", construct, None)
+                chk.unknown_instance("PARSE", construct, "the parsed type is not spelled at the call")
+                continue
+            hops = 0
+            while x in aliases and norm(aliases[x]) != x and hops < 4 and (norm(aliases[x]) in aliases or norm(aliases[x]) in delivered):
+                x = norm(aliases[x])         # `using value_t = Int;` is only another name
+                hops += 1
+            if x in aliases:
+                bad = "parses in `%s` = `%s`, an alias computed inside the function, not in the delivered type %s" % (
+                    x, norm(aliases[x])[:60], sorted(delivered))
+            elif delivered and x not in delivered:
+                bad = "parses in `%s` but delivers %s: overflow is detected at the limits of `%s`" % (x, sorted(delivered), x)
+            # white space option
+            skip = True
+            if len(targs) > 1:
+                o = targs[1]
+                init = consts.get(o)
+                if init is None:
+                    skip = None
+                else:
+                    for y in astx.walk_expr(init):
+                        if y.get("k") == "desig" and y.get("n") == "skip_whitespace":
+                            e0 = astx.strip_casts(y.get("e"))
+                            skip = e0.get("v") if e0 is not None and e0.get("k") == "bool" else None
+            want_skip = not f["file"].startswith("_charconv/")
+            if bad is None and skip is not None and skip != want_skip:
+                bad = "%s leading white space, the standard function %s" % ("skips" if skip else "does not skip", "does not" if skip else "does")
+            chk.obligation("PARSE", construct, None if (bad is None and skip is None) else bad is None)
+            if bad:
+                chk.violation("PARSE", construct, "parse-configuration", "%s: %s %s" % (astx.loc(f, c), f["n"], bad), {"where": astx.loc(f)})
+            elif skip is None:
+                chk.unknown_instance("PARSE", construct, "the options argument is not a local constant")
+    if n < 6:
+        chk.analysis_broken("PARSE: only %d calls of to_integer found in the parsing front ends (floor 6)" % n)
+
+
+def _split_targs(s):
+    out, depth, cur = [], 0, ""
+    for ch in s:
+        if ch in "<({[":
+            depth += 1
+        elif ch in ">)}]":
+            depth -= 1
+        if ch == "," and depth == 0:
+            out.append(cur)
+            cur = ""
+        else:
+            cur += ch
+    if cur.strip():
+        out.append(cur)
+    return out
+
+
+META_EXTRA = "NEG (no negation of a possibly-minimum signed value); SIGN ('-' on every path that may format a negative value); CASTSIGN (no cast of the caller's value to a fixed signed type); OVFCHK (accumulation only after an unconditional overflow test); OVFCONST (exact thresholds limit / base, |limit % base|); PARSE (front ends parse in the type they deliver, with the standard's white-space option); PARAM."
 META = (META[0] + " " + META_EXTRA, META[1])
 
 
@@ -463,6 +554,7 @@ def run(chk, tier):
     castsign_rule(chk, db)
     ovfchk_rule(chk, db)
     ovfconst_rule(chk, db)
+    parse_rule(chk, D.load("checks"))
     chk.assumptions += [
         "digits produced, values parsed, round trips and overflow detection at the type's limits are run-time values and are "
         "not decided by these clauses",
